@@ -3,10 +3,14 @@ package main
 import (
 	"fmt"
 	"go/ast"
+	"os"
 	"path/filepath"
 	"reflect"
+	"regexp"
+	"sort"
 	"strconv"
 	"strings"
+	"unicode"
 )
 
 // pbFieldTable re-reads the `protobuf:"kind,number,label,..."` struct tags of a generated
@@ -176,5 +180,422 @@ func init() {
 			fmt.Fprintf(b, "Definition %s : list (N * N * N) :=\n  [ %s ].\n", m.def, strings.Join(rows, "\n  ; "))
 		}
 		fmt.Fprintf(b, "Definition c15_pb_proto3_or_packed : bool := %v.\n", anyProto3)
+
+		c15RpcSchemas(b, p)
 	})
+}
+
+// ---- schemas of every message of coordinator/internal/data.pb.go + the rpc table ----
+
+type c15Field struct {
+	num         int
+	kind, label int // kind: 0 uint64 1 int64 2 uint32 3 int32 4 bool 5 enum 6 sint32 7 sint64 8 fixed64 9 fixed32 10 bytes/string 11 message
+	sub         string
+	name        string
+	protoType   string // the .proto spelling this field corresponds to
+}
+
+type c15Msg struct {
+	name   string
+	fields []c15Field
+}
+
+func c15GoElem(e ast.Expr) (elem string, slice, ptr, isBytes bool) {
+	if a, ok := e.(*ast.ArrayType); ok && a.Len == nil {
+		if id, ok := a.Elt.(*ast.Ident); ok && id.Name == "byte" {
+			return "[]byte", false, false, true
+		}
+		slice = true
+		e = a.Elt
+		if a2, ok := e.(*ast.ArrayType); ok && a2.Len == nil {
+			if id, ok := a2.Elt.(*ast.Ident); ok && id.Name == "byte" {
+				return "[]byte", true, false, true
+			}
+		}
+	}
+	if st, ok := e.(*ast.StarExpr); ok {
+		ptr = true
+		e = st.X
+	}
+	if id, ok := e.(*ast.Ident); ok {
+		return id.Name, slice, ptr, false
+	}
+	return "?", slice, ptr, false
+}
+
+// c15PbMessages re-reads every generated message struct of a .pb.go package: the struct tags
+// `protobuf:"kind,number,label,..."` are what gogo/protobuf's table marshaler / unmarshaler is
+// driven by (computeMarshalFieldInfo / computeUnmarshalInfo), the Go field type selects the
+// scalar unmarshaler.  Fields are returned in wire-tag order (sort.Sort(byTag)).
+func c15PbMessages(p *pkgConsts) []c15Msg {
+	var msgs []c15Msg
+	for _, f := range p.files {
+		for _, d := range f.Decls {
+			gd, ok := d.(*ast.GenDecl)
+			if !ok {
+				continue
+			}
+			for _, sp := range gd.Specs {
+				ts, ok := sp.(*ast.TypeSpec)
+				if !ok {
+					continue
+				}
+				st, ok := ts.Type.(*ast.StructType)
+				if !ok {
+					continue
+				}
+				m := c15Msg{name: ts.Name.Name}
+				hasUnrec, isMsg := false, false
+				for _, fl := range st.Fields.List {
+					fname := ""
+					if len(fl.Names) > 0 {
+						fname = fl.Names[0].Name
+					}
+					if fname == "XXX_unrecognized" {
+						hasUnrec = true
+						isMsg = true
+					}
+					if strings.HasPrefix(fname, "XXX_") {
+						if fname != "XXX_unrecognized" && fname != "XXX_NoUnkeyedLiteral" && fname != "XXX_sizecache" {
+							die("%s: field %s (extensions) is not modelled", m.name, fname)
+						}
+						continue
+					}
+					tag := ""
+					if fl.Tag != nil {
+						raw, err := strconv.Unquote(fl.Tag.Value)
+						if err != nil {
+							die("%s: bad struct tag %s", m.name, fl.Tag.Value)
+						}
+						if reflect.StructTag(raw).Get("protobuf_oneof") != "" {
+							die("%s.%s: oneof is not modelled", m.name, fname)
+						}
+						tag = reflect.StructTag(raw).Get("protobuf")
+					}
+					if tag == "" {
+						// computeMarshalInfo ignores a field without a tag: it would silently not travel
+						die("%s.%s: exported field without a protobuf tag (it would not be marshaled)", m.name, fname)
+					}
+					isMsg = true
+					parts := strings.Split(tag, ",")
+					if len(parts) < 3 {
+						die("%s.%s: short protobuf tag %q", m.name, fname, tag)
+					}
+					num, err := strconv.Atoi(parts[1])
+					if err != nil || num <= 0 {
+						die("%s.%s: bad field number in %q", m.name, fname, tag)
+					}
+					elem, slice, ptr, isBytes := c15GoElem(fl.Type)
+					fd := c15Field{num: num, name: fname}
+					packed := false
+					for _, x := range parts[3:] {
+						switch {
+						case x == "proto3":
+							die("%s.%s: proto3 field (the model is proto2: presence, no UTF-8 check)", m.name, fname)
+						case x == "packed":
+							packed = true
+						case strings.HasPrefix(x, "customtype=") || strings.HasPrefix(x, "casttype=") || x == "stdtime" || x == "stdduration" || x == "wktptr" || strings.HasPrefix(x, "embedded="):
+							die("%s.%s: gogo extension %q is not modelled", m.name, fname, x)
+						case strings.HasPrefix(x, "def="):
+							die("%s.%s: default values are not modelled", m.name, fname)
+						}
+					}
+					switch parts[2] {
+					case "opt":
+						fd.label = 0
+					case "req":
+						fd.label = 1
+					case "rep":
+						fd.label = 2
+						if packed {
+							fd.label = 3
+						}
+					default:
+						die("%s.%s: label %q is not modelled", m.name, fname, parts[2])
+					}
+					// the Go type must have the shape the label implies (pointer / slice = nil-able)
+					if fd.label >= 2 {
+						if !slice {
+							die("%s.%s: repeated field that is not a slice", m.name, fname)
+						}
+					} else if !(ptr && !slice) && !(isBytes && !slice) {
+						die("%s.%s: optional/required field that is neither a pointer nor []byte (nullable=false is not modelled)", m.name, fname)
+					}
+					switch parts[0] {
+					case "varint":
+						k, ok := map[string]int{"uint64": 0, "int64": 1, "uint32": 2, "int32": 3, "bool": 4}[elem]
+						if !ok {
+							if elem == "?" || isBytes || elem == "string" || elem == "float64" || elem == "float32" {
+								die("%s.%s: varint field of Go type %s", m.name, fname, elem)
+							}
+							k = 5 // a named int32 type: enum
+							fd.protoType = "enum"
+						} else {
+							fd.protoType = elem
+						}
+						fd.kind = k
+					case "zigzag32":
+						fd.kind, fd.protoType = 6, "sint32"
+					case "zigzag64":
+						fd.kind, fd.protoType = 7, "sint64"
+					case "fixed64":
+						fd.kind = 8
+						fd.protoType = map[string]string{"uint64": "fixed64", "int64": "sfixed64", "float64": "double"}[elem]
+					case "fixed32":
+						fd.kind = 9
+						fd.protoType = map[string]string{"uint32": "fixed32", "int32": "sfixed32", "float32": "float"}[elem]
+					case "bytes":
+						switch {
+						case isBytes:
+							fd.kind, fd.protoType = 10, "bytes"
+						case elem == "string":
+							fd.kind, fd.protoType = 10, "string"
+						case ptr && elem != "?":
+							fd.kind, fd.sub, fd.protoType = 11, elem, elem
+						default:
+							die("%s.%s: bytes field of Go type %s", m.name, fname, elem)
+						}
+					default:
+						die("%s.%s: protobuf kind %q is not modelled", m.name, fname, parts[0])
+					}
+					if fd.protoType == "" {
+						die("%s.%s: kind %s does not fit Go type %s", m.name, fname, parts[0], elem)
+					}
+					if fd.label == 3 && fd.kind >= 10 {
+						die("%s.%s: packed non-numeric field", m.name, fname)
+					}
+					m.fields = append(m.fields, fd)
+				}
+				if !isMsg {
+					continue
+				}
+				if !hasUnrec {
+					die("%s: no XXX_unrecognized field (the model keeps unknown fields)", m.name)
+				}
+				sort.SliceStable(m.fields, func(i, j int) bool { return m.fields[i].num < m.fields[j].num })
+				msgs = append(msgs, m)
+			}
+		}
+	}
+	if len(msgs) == 0 {
+		die("no generated message found")
+	}
+	return msgs
+}
+
+var c15ProtoMsgRe = regexp.MustCompile(`(?s)message\s+(\w+)\s*\{(.*?)\}`)
+var c15ProtoFieldRe = regexp.MustCompile(`(?m)^\s*(optional|required|repeated)\s+(\w+)\s+(\w+)\s*=\s*(\d+)\s*(\[[^\]]*\])?\s*;`)
+
+// c15ProtoFile reads the (flat, proto2) message definitions of a .proto file:
+// message -> "label type name = number [opts]" rows in number order.
+func c15ProtoFile(path string) map[string][]string {
+	raw, err := os.ReadFile(path)
+	if err != nil {
+		die("cannot read %s: %v", path, err)
+	}
+	src := regexp.MustCompile(`//[^\n]*`).ReplaceAllString(string(raw), "")
+	if !regexp.MustCompile(`syntax\s*=\s*"proto2"`).MatchString(src) {
+		die("%s is not proto2", path)
+	}
+	res := map[string][]string{}
+	for _, m := range c15ProtoMsgRe.FindAllStringSubmatch(src, -1) {
+		type row struct {
+			n int
+			s string
+		}
+		var rows []row
+		for _, f := range c15ProtoFieldRe.FindAllStringSubmatch(m[2], -1) {
+			n, _ := strconv.Atoi(f[4])
+			opt := ""
+			if strings.Contains(f[5], "packed") && strings.Contains(f[5], "true") {
+				opt = " packed"
+			}
+			rows = append(rows, row{n, fmt.Sprintf("%s %s %s = %d%s", f[1], f[2], f[3], n, opt)})
+		}
+		sort.SliceStable(rows, func(i, j int) bool { return rows[i].n < rows[j].n })
+		var out []string
+		for _, r := range rows {
+			out = append(out, r.s)
+		}
+		res[m[1]] = out
+	}
+	return res
+}
+
+func c15UpperFirst(s string) string {
+	r := []rune(s)
+	r[0] = unicode.ToUpper(r[0])
+	return string(r)
+}
+
+func c15RpcSchemas(b *strings.Builder, co *pkgConsts) {
+	pi := loadPkg(filepath.Join(*repo, "coordinator", "internal"))
+	msgs := c15PbMessages(pi)
+	idx := map[string]int{}
+	for i, m := range msgs {
+		idx[m.name] = i + 1
+	}
+	// the generated code against its source: every message and field of data.proto, and nothing else
+	proto := c15ProtoFile(filepath.Join(*repo, "coordinator", "internal", "data.proto"))
+	matches := len(proto) == len(msgs)
+	var why []string
+	for _, m := range msgs {
+		var rows []string
+		for _, f := range m.fields {
+			lab := []string{"optional", "required", "repeated", "repeated"}[f.label]
+			opt := ""
+			if f.label == 3 {
+				opt = " packed"
+			}
+			rows = append(rows, fmt.Sprintf("%s %s %s = %d%s", lab, f.protoType, f.name, f.num, opt))
+		}
+		want, ok := proto[m.name]
+		if !ok || strings.Join(want, ";") != strings.Join(rows, ";") {
+			matches = false
+			why = append(why, fmt.Sprintf("%s: pb.go {%s} vs .proto {%s}", m.name, strings.Join(rows, "; "), strings.Join(want, "; ")))
+		}
+	}
+	b.WriteString("(* every message of coordinator/internal/data.pb.go: (name, fields in wire-tag order); a field is\n")
+	b.WriteString("   (number, kind, label, sub): kind 0 uint64 1 int64 2 uint32 3 int32 4 bool 5 enum 6 sint32 7 sint64 8 fixed64\n")
+	b.WriteString("   9 fixed32 10 bytes/string 11 message; label 0 optional 1 required 2 repeated 3 repeated packed;\n")
+	b.WriteString("   sub = 1 + index of the nested message in this table (0 for scalars) *)\n")
+	b.WriteString("Definition c15_rpc_messages : list (list N * list (N * N * N * N)) :=\n  [ ")
+	for i, m := range msgs {
+		if i > 0 {
+			b.WriteString("\n  ; ")
+		}
+		var rows []string
+		for _, f := range m.fields {
+			sub := 0
+			if f.kind == 11 {
+				var ok bool
+				if sub, ok = idx[f.sub]; !ok {
+					die("%s.%s: nested message type %s not found", m.name, f.name, f.sub)
+				}
+			}
+			rows = append(rows, fmt.Sprintf("(%d%%N, %d%%N, %d%%N, %d%%N) (* %s *)", f.num, f.kind, f.label, sub, f.name))
+		}
+		var nb []string
+		for _, c := range []byte(m.name) {
+			nb = append(nb, fmt.Sprintf("%d%%N", c))
+		}
+		fmt.Fprintf(b, "([%s] (* %s *),\n     [ %s ])", strings.Join(nb, ";"), m.name, strings.Join(rows, "\n     ; "))
+	}
+	b.WriteString(" ].\n")
+	fmt.Fprintf(b, "Definition c15_pb_matches_proto : bool := %v.", matches)
+	if !matches {
+		fmt.Fprintf(b, " (* %s *)", strings.ReplaceAll(strings.Join(why, " | "), "*)", "* )"))
+	}
+	b.WriteString("\n")
+
+	// message type code -> request / response body.  The constant xyzRequestMessage names the
+	// wrapper type XyzRequest of rpc.go (checked against every EncodeTLV(conn, const, &T{...}) call
+	// of the package); the wrapper's MarshalBinary / UnmarshalBinary / struct names internal.<Message>.
+	wrapperMsg := map[string]string{}
+	for _, f := range co.files {
+		for _, d := range f.Decls {
+			switch x := d.(type) {
+			case *ast.GenDecl:
+				for _, sp := range x.Specs {
+					ts, ok := sp.(*ast.TypeSpec)
+					if !ok {
+						continue
+					}
+					if st, ok := ts.Type.(*ast.StructType); ok {
+						for _, fl := range st.Fields.List {
+							if sel, ok := fl.Type.(*ast.SelectorExpr); ok {
+								if id, ok := sel.X.(*ast.Ident); ok && id.Name == "internal" && len(fl.Names) == 1 && fl.Names[0].Name == "pb" {
+									wrapperMsg[ts.Name.Name] = sel.Sel.Name
+								}
+							}
+						}
+					}
+				}
+			case *ast.FuncDecl:
+				if x.Recv == nil || len(x.Recv.List) != 1 || (x.Name.Name != "MarshalBinary" && x.Name.Name != "UnmarshalBinary") {
+					continue
+				}
+				t := x.Recv.List[0].Type
+				if st, ok := t.(*ast.StarExpr); ok {
+					t = st.X
+				}
+				rid, ok := t.(*ast.Ident)
+				if !ok {
+					continue
+				}
+				ast.Inspect(x, func(n ast.Node) bool {
+					if sel, ok := n.(*ast.SelectorExpr); ok {
+						if id, ok := sel.X.(*ast.Ident); ok && id.Name == "internal" {
+							if _, isMsg := idx[sel.Sel.Name]; isMsg && (strings.HasSuffix(sel.Sel.Name, "Request") || strings.HasSuffix(sel.Sel.Name, "Response")) {
+								if old, ok := wrapperMsg[rid.Name]; ok && old != sel.Sel.Name {
+									die("rpc.go: %s uses two message types (%s, %s)", rid.Name, old, sel.Sel.Name)
+								}
+								wrapperMsg[rid.Name] = sel.Sel.Name
+							}
+						}
+					}
+					return true
+				})
+			}
+		}
+	}
+	// EncodeTLV(conn, <const>, &<Wrapper>{...}) must agree with the naming rule
+	for _, f := range co.files {
+		ast.Inspect(f, func(n ast.Node) bool {
+			c, ok := n.(*ast.CallExpr)
+			if !ok || len(c.Args) != 3 {
+				return true
+			}
+			fn, ok := c.Fun.(*ast.Ident)
+			if !ok || fn.Name != "EncodeTLV" {
+				return true
+			}
+			cid, ok := c.Args[1].(*ast.Ident)
+			if !ok || !strings.HasSuffix(cid.Name, "Message") {
+				return true
+			}
+			if u, ok := c.Args[2].(*ast.UnaryExpr); ok {
+				if cl, ok := u.X.(*ast.CompositeLit); ok {
+					if tid, ok := cl.Type.(*ast.Ident); ok {
+						if want := c15UpperFirst(strings.TrimSuffix(cid.Name, "Message")); tid.Name != want {
+							die("EncodeTLV(%s, &%s{}): message code and body type disagree (expected %s)", cid.Name, tid.Name, want)
+						}
+					}
+				}
+			}
+			return true
+		})
+	}
+	var names []string
+	for n := range co.values {
+		if strings.HasSuffix(n, "RequestMessage") {
+			names = append(names, n)
+		}
+	}
+	sort.Slice(names, func(i, j int) bool {
+		a, _ := strconv.Atoi(co.intConst(names[i]))
+		c, _ := strconv.Atoi(co.intConst(names[j]))
+		return a < c
+	})
+	if len(names) == 0 {
+		die("no xRequestMessage constants found")
+	}
+	b.WriteString("(* request type code, response type code, 1 + index of the request body message, of the response body message\n")
+	b.WriteString("   (0 = the frame has no protobuf body of its own) *)\n")
+	b.WriteString("Definition c15_rpc_pairs : list (N * N * N * N) :=\n  [ ")
+	for i, n := range names {
+		if i > 0 {
+			b.WriteString("\n  ; ")
+		}
+		base := strings.TrimSuffix(n, "RequestMessage")
+		respConst := base + "ResponseMessage"
+		if _, ok := co.values[respConst]; !ok {
+			die("constant %s has no %s", n, respConst)
+		}
+		reqW, respW := c15UpperFirst(base)+"Request", c15UpperFirst(base)+"Response"
+		ri, si := idx[wrapperMsg[reqW]], idx[wrapperMsg[respW]]
+		fmt.Fprintf(b, "(%s%%N, %s%%N, %d%%N, %d%%N) (* %s: %s / %s *)", co.intConst(n), co.intConst(respConst), ri, si, base,
+			wrapperMsg[reqW], wrapperMsg[respW])
+	}
+	b.WriteString(" ].\n")
 }
